@@ -154,3 +154,32 @@ Example c17_example_after_join :
   NoDup (flat_map op_sinks ops) /\ forallb (fun o => negb (is_via o)) ops = true /\
   log (fst (run init ops)) = [Recv 1 7; Joined 1; Recv 2 8; Recv 3 9].
 Proof. vm_compute. repeat split; auto. repeat constructor; cbn; intuition discriminate. Qed.
+
+(* Several threads attaching to one unattached global (or installing a runtime test sink on one runtime) at the same
+   moment: the installation is one atomic step, so a race is a serial order of the calls; for every order exactly
+   the first caller succeeds, every other panics, and the global ends up with the first caller's sink.
+   `attach_race_ok` decides the observation of a race on the implementation; it holds of what the model shows. *)
+From MV Require Import C17.AttachRace.
+Theorem c17_attach_race_one_winner : forall g c sk rest s,
+  att (getg s g) = None ->
+  att (getg (fst (run s (attach_ops g ((c, sk) :: rest)))) g) = Some sk /\
+  exists h, snd (run s (attach_ops g ((c, sk) :: rest))) = ROk h :: map (fun _ => RPanic) rest.
+Proof. exact attach_race_one_winner. Qed.
+Print Assumptions c17_attach_race_one_winner.
+
+Theorem c17_attach_race_exactly_one : forall g cs s,
+  cs <> [] -> att (getg s g) = None ->
+  length (filter is_ok (snd (run s (attach_ops g cs)))) = 1%nat.
+Proof. exact attach_race_exactly_one. Qed.
+Print Assumptions c17_attach_race_exactly_one.
+
+Theorem c17_runtime_install_race_one_winner : forall g r c sk rest s,
+  Model.lookup r (rts (getg s g)) = None ->
+  Model.lookup r (rts (getg (fst (run s (setrt_ops g r ((c, sk) :: rest)))) g)) = Some sk /\
+  exists h, snd (run s (setrt_ops g r ((c, sk) :: rest))) = ROk h :: map (fun _ => RPanic) rest.
+Proof. exact setrt_race_one_winner. Qed.
+Print Assumptions c17_runtime_install_race_one_winner.
+
+Theorem c17_attach_race_predicate_holds_of_the_model : forall w r, attach_race_ok (model_results (w :: r)) [w] true = true.
+Proof. exact attach_race_ok_of_model. Qed.
+Print Assumptions c17_attach_race_predicate_holds_of_the_model.
